@@ -442,11 +442,14 @@ impl Platform {
     const NAME_OFFSET: usize = 12;
 
     pub fn new(id: u16, name: String, id_mappings: Option<Vec<IdMapping>>) -> Self {
-        Self {
+        let platform = Self {
             id,
             name,
             id_mappings,
-        }
+        };
+        // The device length (and so the mapping offset) is a 16-bit field.
+        assert!(platform.len() <= u16::MAX as usize);
+        platform
     }
 
     fn u8sum(&self) -> u8 {
